@@ -7,6 +7,8 @@ import (
 	"runtime"
 	"sort"
 	"strings"
+	"sync"
+	"sync/atomic"
 
 	"github.com/gocql/gocql"
 	"github.com/gocql/gocql/verifsim/kernel"
@@ -354,6 +356,7 @@ const (
 	opRemove
 	opKS
 	opBurst
+	opUpMany
 )
 
 type pkKS struct {
@@ -363,7 +366,8 @@ type pkKS struct {
 
 type pkOp struct {
 	kind    int
-	host    int // index into model.hosts
+	hosts   []int // opUpMany: indexes into model.hosts
+	host    int   // index into model.hosts
 	newHost *pkHost
 	fixes   []pkKS // keyspace alterations that precede a removal (see genOp)
 	ks      pkKS
@@ -382,7 +386,10 @@ func (m *pkModel) genOp(tp *kernel.Tape, noFaults, mutOnly bool) pkOp {
 			downs = append(downs, h)
 		}
 	}
-	ws := []int{6, 3, 3, 1, 2, 1, 1, 1}
+	ws := []int{6, 3, 3, 1, 2, 1, 1, 1, 0}
+	if len(downs) >= 2 && !noFaults {
+		ws[opUpMany] = 2
+	}
 	if len(ups) == 0 {
 		ws[opDown] = 0
 	}
@@ -412,6 +419,14 @@ func (m *pkModel) genOp(tp *kernel.Tape, noFaults, mutOnly bool) pkOp {
 		op.host = ups[tp.Next(len(ups))].idx
 	case opUp, opNodeUp:
 		op.host = downs[tp.Next(len(downs))].idx
+	case opUpMany:
+		// several pools report their host connected at the same moment (the session runs
+		// handleNodeConnected on one goroutine per pool)
+		n := 2 + tp.Next(2)
+		first := tp.Next(len(downs))
+		for i := 0; i < n && i < len(downs); i++ {
+			op.hosts = append(op.hosts, downs[(first+i)%len(downs)].idx)
+		}
 	case opAdd:
 		op.newHost = m.genHost(tp, true)
 	case opRemove:
@@ -458,6 +473,10 @@ func (m *pkModel) applyModel(op pkOp) {
 		m.hosts[op.host].up = false
 	case opUp:
 		m.hosts[op.host].up = true
+	case opUpMany:
+		for _, i := range op.hosts {
+			m.hosts[i].up = true
+		}
 	case opAdd:
 		h := *op.newHost
 		h.known = true
@@ -692,6 +711,43 @@ func (r *pkRun) apply(op pkOp, who string) bool {
 			r.pol.HostUp(h.info)
 		})
 		k.Fault("history.host-up")
+	case opUpMany:
+		var ids []string
+		for _, i := range op.hosts {
+			ids = append(ids, m.hosts[i].id)
+		}
+		r.rec("%sup-at-once %s", who, strings.Join(ids, ","))
+		ok = r.guard("HostUp(concurrent)", func() {
+			// with GOMAXPROCS > 1 (the parallel pass) the calls really coincide
+			var wg sync.WaitGroup
+			var ready, gate int32
+			spin := runtime.GOMAXPROCS(0) > 1
+			for _, i := range op.hosts {
+				h := m.hosts[i]
+				wg.Add(1)
+				go func() {
+					defer wg.Done()
+					if spin {
+						atomic.AddInt32(&ready, 1)
+						for n := 0; atomic.LoadInt32(&gate) == 0; n++ {
+							if n%1024 == 1023 {
+								runtime.Gosched()
+							}
+						}
+					}
+					h.info.VerifSetState(true)
+					r.pol.HostUp(h.info)
+				}()
+			}
+			if spin {
+				for n := 0; atomic.LoadInt32(&ready) < int32(len(op.hosts)) && n < 1<<22; n++ {
+					runtime.Gosched()
+				}
+				atomic.StoreInt32(&gate, 1)
+			}
+			wg.Wait()
+		})
+		k.Fault("history.hosts-up-at-once")
 	case opNodeUp:
 		h := m.hosts[op.host]
 		r.rec("%snode-up-event %s", who, h.id)
